@@ -126,6 +126,9 @@ def real_run(arg):
     """multi_both with the module-level plugin family: the multiprocess run against the single-thread run"""
     policy, case, tpl = arg
     import mpplugins as MP
+    import multiprocessing
+    # this harness process descends from a daemonic pool worker and must be allowed to have process-pool children
+    multiprocessing.current_process()._config["daemon"] = False
     res = dict(case=case, bad=[])
     rows = {}
     stored_after = {}
